@@ -194,11 +194,44 @@ func Scan(w *load.World, c *core.Collector) {
 									continue
 								}
 								op := bo.Op
-								zero, isC := ssax.ConstInt(bo.Y)
+								other := bo.Y
 								if bo.X != ssa.Value(x) {
-									zero, isC = ssax.ConstInt(bo.X)
+									other = bo.X
 									// constant on the left: mirror the operator
 									op = map[token.Token]token.Token{token.LSS: token.GTR, token.GTR: token.LSS, token.LEQ: token.GEQ, token.GEQ: token.LEQ, token.EQL: token.EQL, token.NEQ: token.NEQ}[bo.Op]
+								}
+								zero, isC := ssax.ConstInt(other)
+								// "c >= stopAt" with stopAt chosen by the flag: one comparison per value of the flag
+								if phi, isPhi := other.(*ssa.Phi); isPhi && !isC && inclusive != nil {
+									okPhi := true
+									for i, e := range phi.Edges {
+										if e == ssa.Value(phi) {
+											continue // carried round the loop unchanged
+										}
+										k, kc := ssax.ConstInt(e)
+										pc := edgeCtx(fn, inclusive, phi.Block().Preds[i], phi.Block())
+										nop, nok := normCmp(op, k)
+										if !kc || pc == "any" || !nok {
+											okPhi = false
+											break
+										}
+										if argPos == 0 {
+											nop = map[token.Token]token.Token{token.LSS: token.GTR, token.GTR: token.LSS, token.LEQ: token.GEQ, token.GEQ: token.LEQ, token.EQL: token.EQL, token.NEQ: token.NEQ}[nop]
+										}
+										row := fmt.Sprintf("%s Compare(key,bound) %s 0 %s", bound, nop, pc)
+										rows = append(rows, row)
+										good := (bound == "end" && pc == "inclusive" && nop == token.GTR) || (bound == "end" && pc == "exclusive" && nop == token.GEQ) ||
+											(bound == "start" && pc == "inclusive" && nop == token.LSS) || (bound == "start" && pc == "exclusive" && nop == token.LEQ)
+										if !good {
+											bad = append(bad, row+": not the comparison this bound needs under this inclusiveness")
+										}
+									}
+									if okPhi {
+										continue
+									}
+								}
+								if nop, nok := normCmp(op, zero); isC && nok {
+									op, zero = nop, 0
 								}
 								if !isC || zero != 0 {
 									bad = append(bad, fmt.Sprintf("%s Compare result compared with something other than 0", bound))
@@ -207,6 +240,11 @@ func Scan(w *load.World, c *core.Collector) {
 								if argPos == 0 {
 									// Compare(bound, key): mirror
 									op = map[token.Token]token.Token{token.LSS: token.GTR, token.GTR: token.LSS, token.LEQ: token.GEQ, token.GEQ: token.LEQ, token.EQL: token.EQL, token.NEQ: token.NEQ}[op]
+								}
+								// the comparison with zero may sit deeper than the call (behind a test of the flag)
+								ctx := ctx
+								if cb := ctxOf(bo.Block()); cb != "any" {
+									ctx = cb
 								}
 								row := fmt.Sprintf("%s Compare(key,bound) %s 0 %s", bound, op, ctx)
 								rows = append(rows, row)
@@ -255,6 +293,10 @@ func Scan(w *load.World, c *core.Collector) {
 								}
 								switch {
 								case okRow:
+								case bound == "end" && ctx == "exclusive" && op == token.EQL && strictAlso(x, token.GTR, argPos),
+									bound == "start" && ctx == "exclusive" && op == token.EQL && strictAlso(x, token.LSS, argPos):
+									// "c > 0 || (!inclusive && c == 0)": together with the strict test of the same result
+									okRow = true
 								case bound == "end" && ctx == "inclusive" && op == token.GTR,
 									bound == "end" && ctx == "exclusive" && op == token.GEQ,
 									bound == "start" && ctx == "inclusive" && op == token.LSS,
@@ -331,4 +373,80 @@ func boundOnly(v ssa.Value, role map[*ssa.Parameter]string) bool {
 			return false
 		}
 	}
+}
+
+// strictAlso: the same Compare result is also tested strictly (op 0) — with the operator
+// mirrored when the bound is the first argument.
+func strictAlso(call *ssa.Call, want token.Token, argPos int) bool {
+	mirror := map[token.Token]token.Token{token.LSS: token.GTR, token.GTR: token.LSS, token.LEQ: token.GEQ, token.GEQ: token.LEQ, token.EQL: token.EQL, token.NEQ: token.NEQ}
+	for _, r := range *call.Referrers() {
+		bo, ok := r.(*ssa.BinOp)
+		if !ok {
+			continue
+		}
+		op := bo.Op
+		zero, isC := ssax.ConstInt(bo.Y)
+		if bo.X != ssa.Value(call) {
+			zero, isC = ssax.ConstInt(bo.X)
+			op = mirror[op]
+		}
+		if !isC || zero != 0 {
+			continue
+		}
+		if argPos == 0 {
+			op = mirror[op]
+		}
+		if op == want {
+			return true
+		}
+	}
+	return false
+}
+
+// normCmp rewrites "c op k" for k in {-1, 0, 1} as "c op' 0" (c is an integer).
+func normCmp(op token.Token, k int64) (token.Token, bool) {
+	switch {
+	case k == 0:
+		return op, true
+	case k == 1 && op == token.GEQ:
+		return token.GTR, true
+	case k == 1 && op == token.LSS:
+		return token.LEQ, true
+	case k == -1 && op == token.LEQ:
+		return token.LSS, true
+	case k == -1 && op == token.GTR:
+		return token.GEQ, true
+	}
+	return op, false
+}
+
+// edgeCtx: the value of the inclusive flag on the control-flow edge pred->succ.
+func edgeCtx(fn *ssa.Function, inclusive *ssa.Parameter, pred, succ *ssa.BasicBlock) string {
+	var tEdges, fEdges []ssax.Edge
+	for _, bb := range fn.Blocks {
+		ifi, ok := bb.Instrs[len(bb.Instrs)-1].(*ssa.If)
+		if !ok {
+			continue
+		}
+		cond, neg := ifi.Cond, false
+		if u, ok := cond.(*ssa.UnOp); ok && u.Op == token.NOT {
+			cond, neg = u.X, true
+		}
+		if cond != ssa.Value(inclusive) {
+			continue
+		}
+		t, e := 0, 1
+		if neg {
+			t, e = 1, 0
+		}
+		tEdges = append(tEdges, ssax.Edge{From: bb, Succ: t})
+		fEdges = append(fEdges, ssax.Edge{From: bb, Succ: e})
+	}
+	switch {
+	case edgeOnlyVia(tEdges, pred, succ):
+		return "inclusive"
+	case edgeOnlyVia(fEdges, pred, succ):
+		return "exclusive"
+	}
+	return "any"
 }
